@@ -35,7 +35,7 @@ impl Scenario for Skip {
         "per case one subject, one byte string (valid, valid+suffix, damaged, truncated, random) and one benign source stack; T::skip and T::decode run on twin copies of the same source with the same seam schedule: same Ok/Err, same bytes taken on Ok; for collection subjects (and tuples led by one) DecodeLength::len(bytes) equals the value's length on honest encodings and is Err exactly when the count prefix is not a valid Compact<u32>; non-trivial = more than one seam call, a benign fault fired, or input longer than one byte"
     }
     fn cases(&self, tier: Tier) -> u64 {
-        tiered(tier, 600_000, 60_000_000)
+        tiered(tier, 2_000_000, 80_000_000)
     }
     fn gen(&self, seed: u64, idx: u64, _tier: Tier) -> Plan {
         let mut rng = Rng::for_case(seed, "skip", idx);
